@@ -66,6 +66,32 @@ func findBuilder(p *Program, entry *ssa.Function) *ssa.Function {
 func workListElem(f *ssa.Function) types.Type {
 	appended := map[string]types.Type{}
 	lenUsed := map[string]bool{}
+	// appends may sit in a helper the construction function hands the list to (a work-list record with
+	// a push method): the helpers it calls, two levels deep, are scanned for appends only
+	helpers := map[*ssa.Function]bool{}
+	var collect func(g *ssa.Function, d int)
+	collect = func(g *ssa.Function, d int) {
+		for _, c := range callsIn(g) {
+			if h := calleeOf(c); h != nil && trieScope(h) && len(h.Blocks) > 0 && h != f && !helpers[h] && d < 2 {
+				helpers[h] = true
+				collect(h, d+1)
+			}
+		}
+	}
+	collect(f, 0)
+	for h := range helpers {
+		instrsOf(h, func(_ *ssa.BasicBlock, in ssa.Instruction) {
+			if c, ok := in.(*ssa.Call); ok {
+				if bi, ok := c.Call.Value.(*ssa.Builtin); ok && bi.Name() == "append" {
+					if sl, ok := c.Call.Args[0].Type().Underlying().(*types.Slice); ok {
+						if _, isStruct := sl.Elem().Underlying().(*types.Struct); isStruct {
+							appended[sl.Elem().String()] = sl.Elem()
+						}
+					}
+				}
+			}
+		})
+	}
 	instrsOf(f, func(_ *ssa.BasicBlock, in ssa.Instruction) {
 		c, ok := in.(*ssa.Call)
 		if !ok {
@@ -88,15 +114,26 @@ func workListElem(f *ssa.Function) types.Type {
 			appended[sl.Elem().String()] = sl.Elem()
 		case "len":
 			// used in a comparison that controls a branch
-			for _, ref := range *c.Referrers() {
-				if b, ok := ref.(*ssa.BinOp); ok {
-					for _, r2 := range *b.Referrers() {
-						if _, ok := r2.(*ssa.If); ok {
-							lenUsed[sl.Elem().String()] = true
+			var viaConv func(v ssa.Value, d int)
+			viaConv = func(v ssa.Value, d int) {
+				refs := v.Referrers()
+				if refs == nil || d > 2 {
+					return
+				}
+				for _, ref := range *refs {
+					if cv, ok := ref.(*ssa.Convert); ok {
+						viaConv(cv, d+1)
+					}
+					if b, ok := ref.(*ssa.BinOp); ok {
+						for _, r2 := range *b.Referrers() {
+							if _, ok := r2.(*ssa.If); ok {
+								lenUsed[sl.Elem().String()] = true
+							}
 						}
 					}
 				}
 			}
+			viaConv(c, 0)
 		}
 	})
 	var cands []string
